@@ -65,7 +65,7 @@ def extra(sims, net, opts, n, info, rec):
 
 
 def run(chk):
-    chk.regen(['enum:SupvisorsInstanceStates', 'SupvisorsInstanceStatus', 'ast:is_inactive', 'WORKING_STATES', 'StateModes.STABLE_STATES'])
+    chk.regen(['enum:SupvisorsInstanceStates', 'SupvisorsInstanceStatus', 'ast:is_inactive', 'WORKING_STATES', 'StateModes.STABLE_STATES', 'ast:instance_state_writers'])
     chk.prove('Supv.Props.C07', extra_targets=['drv_net'])
     if chk.tier == 'thorough': chk.leanchecker(['Supv.Props.C07'])
     cluster_check(chk, ['C07-', 'C13-left-isolated'], nontrivial,
